@@ -16,10 +16,11 @@ func init() {
 	register(&Prop{
 		ID:          "C14",
 		Title:       "Trait servers give read-your-writes through the full stack",
-		Explanation: "Scope: every hand-written method under pkg/trait that has the shape of an RPC handler (unary (ctx, *XRequest) (*Y, error) or server-streaming (*XRequest, stream) error), discovered from the type-checked source. R14.1 a request's read_mask reaches resource.WithReadMask / masks.WithFieldMask in the handler (or in the module function the handler hands the request to). R14.2 a streaming request's updates_only reaches resource.WithUpdatesOnly or decides a branch. R14.3 every *_Change message built by a Pull handler takes its name from the request. R14.4 the response of an Update-style handler derives from the result of the model/resource write, never from the request message alone, and each model update method returns the write's result. R14.5 the result of a resource write is not type-asserted before its error is checked (a rejected update is an error, not a nil-interface panic). R14.6 the resource carried by a Pull change is the value of the model's event. update_mask omissions are notes. R14.7 current state is read only under !UpdatesOnly and seeds are built from onUpdate's snapshot. R14.8 an error is reported only when nothing was written. R14.9/R14.10 the bus never drops a live listener, one committed write publishes one event. R14.11 a read mask on an assembled message is applied to the assembled message. R14.12 a gate that waits for the seed also opens without one. Does NOT decide equality of responses, tolerance-based suppression, or the wrapper/router stack (C12/C13).",
+		Explanation: "Scope: every hand-written method under pkg/trait that has the shape of an RPC handler (unary (ctx, *XRequest) (*Y, error) or server-streaming (*XRequest, stream) error), discovered from the type-checked source. R14.1 a request's read_mask reaches resource.WithReadMask / masks.WithFieldMask in the handler (or in the module function the handler hands the request to). R14.2 a streaming request's updates_only reaches resource.WithUpdatesOnly or decides a branch. R14.3 every *_Change message built by a Pull handler takes its name from the request. R14.4 the response of an Update-style handler derives from the result of the model/resource write, never from the request message alone, and each model update method returns the write's result. R14.5 the result of a resource write is not type-asserted before its error is checked (a rejected update is an error, not a nil-interface panic). R14.6 the resource carried by a Pull change is the value of the model's event. update_mask omissions are notes. R14.7 current state is read only under !UpdatesOnly and seeds are built from onUpdate's snapshot. R14.8 an error is reported only when nothing was written. R14.9/R14.10 the bus never drops a live listener, one committed write publishes one event. R14.11 a read mask on an assembled message is applied to the assembled message. R14.12 a gate that waits for the seed also opens without one. R14.31 read options given to a model's read method are forwarded to the resource call (shared with R01.13). Does NOT decide equality of responses, tolerance-based suppression, or the wrapper/router stack (C12/C13).",
 		Assumptions: []string{"generated getters GetX() return field X"},
 		Run:         runC14,
 		Controls: []Control{
+			{Name: "air-temperature-get-drops-its-read-options", File: "pkg/trait/airtemperaturepb/model.go", Old: "m.airTemperature.Get(opts...)", New: "m.airTemperature.Get()", Expect: "R14.31"},
 			{Name: "preset-looked-up-before-the-sort", File: "pkg/trait/openclosepb/model.go", Old: "\t\t\tsortPositions(positions.States)\n\n\t\t\tpositions.Preset, _ = m.presetForValue(positions.States)\n", New: "\t\t\tpositions.Preset, _ = m.presetForValue(positions.States)\n\t\t\tsortPositions(positions.States)\n\n", Expect: "R14.28"},
 			{Name: "positions-sorted-descending", File: "pkg/trait/openclosepb/model.go", Old: "\t\treturn int(a.Direction - b.Direction)", New: "\t\treturn int(b.Direction - a.Direction)", Expect: "R14.26"},
 			{Name: "preset-assigned-after-the-projection", File: "pkg/trait/openclosepb/model.go", Old: "\t\t\tpositions.Preset, _ = m.presetForValue(positions.States)\n\n\t\t\t// projection and filtering, positions refers to stored values so must not be modified in place\n\t\t\tpositions = responseFilter.FilterClone(positions).(*traits.OpenClosePositions)\n", New: "\t\t\t// projection and filtering, positions refers to stored values so must not be modified in place\n\t\t\tpositions = responseFilter.FilterClone(positions).(*traits.OpenClosePositions)\n\t\t\tpositions.Preset, _ = m.presetForValue(positions.States)\n", Expect: "R14.25"},
@@ -216,6 +217,8 @@ func runC14(c *an.Ctx) {
 	c.Min("R14.29", 2)
 	shareAs(c, "R06.7", "R14.30", r066, nil) // a masked Get is the projection of the full Get: covered paths are dropped before fmutils sees them (shared with R06.7)
 	c.Min("R14.30", 1)
+	r0113(c, "R14.31") // a Get with a read mask is the projection of the full Get: the read options reach the resource (shared with R01.13)
+	c.Min("R14.31", 40)
 	r1426(c, "R14.26")
 	c.Min("R14.26", 1)
 	r1425(c, "R14.25")
